@@ -22,8 +22,8 @@ def expected_state(cb, m, L):
     code = int(ans[1]); first, last = m['status'][1], m['status'][2]
     files = {}
     for kv in (ans[3].split(',') if len(ans) > 3 and ans[3] else []):
-        k, v = kv.split('='); k = int(k); stem = STEMS[cb][k // 2]
-        files['%s.csv.tmp' % stem if k % 2 == 0 else '%s-%s-%s.csv' % (stem, first, last)] = int(v)
+        k, v = kv.split('='); k = int(k)
+        files[m['fname'][(cb, k // 2)][k % 2]] = int(v)          # abstract file number 2i / 2i+1 -> tmp / final name of writer i as rendered by the model
     return code, files
 
 def explore(ck):
